@@ -14,10 +14,13 @@ EXTENDS Integers, Sequences, FiniteSets, TLC
 \* ---- a fixed family of types: two single-inheritance chains, a multiple-inheritance class, an
 \* unrelated class V registered as a virtual subclass of the ABC I (I is not in V's MRO)
 \* W0 / W1: one and the same class W before / after a LATE registration I.register(W)
-AllTypes == {"A0", "A1", "A2", "B0", "B1", "D", "V", "I", "W0", "W1"}
+\* A3 / A4: a deeper chain (only in the random larger configurations): offers for several strict ancestors of the adaptee
+AllTypes == {"A0", "A1", "A2", "A3", "A4", "B0", "B1", "D", "V", "I", "W0", "W1"}
 Mro(t) == CASE t = "A0" -> <<"A0">>
             [] t = "A1" -> <<"A1", "A0">>
             [] t = "A2" -> <<"A2", "A1", "A0">>
+            [] t = "A3" -> <<"A3", "A2", "A1", "A0">>
+            [] t = "A4" -> <<"A4", "A3", "A2", "A1", "A0">>
             [] t = "B0" -> <<"B0">>
             [] t = "B1" -> <<"B1", "B0">>
             [] t = "D"  -> <<"D", "A1", "A0", "B0">>          \* class D(A1, B0)
@@ -25,7 +28,7 @@ Mro(t) == CASE t = "A0" -> <<"A0">>
             [] t = "I"  -> <<"I">>
             [] t = "W0" -> <<"W0">>
             [] t = "W1" -> <<"W1">>
-VirtualSub == {<<"V", "I">>, <<"W1", "I">>}                    \* I.register(V); later I.register(W)
+VirtualSub == {<<"V", "I">>, <<"W1", "I">>, <<"A3", "I">>}          \* (I.register(A3): the deep chain provides I from A3 down)                    \* I.register(V); later I.register(W)
 SeqToSet(s) == {s[i] : i \in 1..Len(s)}
 Provides(t, p) == \/ p \in SeqToSet(Mro(t))                    \* issubclass(t, p)
                   \/ \E u \in SeqToSet(Mro(t)) : <<u, p>> \in VirtualSub
